@@ -66,7 +66,7 @@ class C12(Prop):
     rule = ("complete enumeration: 127 non-empty subsets x 6 input forms (set, frozenset, sorted list, reversed list, "
             "sorted tuple, shuffled tuple) + 7 single members, all 256 masks, all 399 sequences of length <= 3 as list and "
             "tuple, 4 empty forms; every case is distinct by construction and non-trivial (judged against the bit table); "
-            "odd masks 3..253 are unspecified and skipped")
+            "odd masks 3..253 are unspecified and skipped; 127 aliasing probes edit a returned set and decode the same mask again")
     level_text = ("The input space of the statement is finite and is enumerated completely on every run (exhaustive: true): "
                   "all subsets in all accepted forms, all masks, all short sequences; each result is compared with an independent bit table.")
     level_note = "trusts the 7-entry bit table in vf/props/c12.py; odd masks between 3 and 253 are outside the statement"
@@ -102,6 +102,17 @@ class C12(Prop):
             acc.violation("encode-raised", f"{type(exc).__name__} for valid {form} {sorted(names)}", {"days": sorted(names), "form": form})
             return
         self._drain(acc, f"encode {form}")
+        if isinstance(arg, (set, list)) and form in ("set", "list"):
+            # hostile caller: edits its own collection afterwards, then a different request with the same leading members
+            keep = set(arg) if isinstance(arg, set) else list(arg)
+            arg.clear()
+            try:
+                r_again = self.tools.weekdays_to_hexadecimal(keep)
+                self.enc_rec.drain()
+                if r_again != r:
+                    acc.violation("encode-history-dependent", f"{form} {sorted(names)}: {r!r} first, {r_again!r} after the caller cleared its collection", {"days": sorted(names)})
+            except Exception as exc:
+                acc.violation("encode-raised", f"re-encode raised {type(exc).__name__}", {"days": sorted(names)})
         want = mask_of(names)
         if not (isinstance(r, str) and len(r) == 2 and int(r, 16) == want):
             acc.violation("encode-wrong-mask", f"{form} {sorted(names)} -> {r!r}, want {want:02x}", {"days": sorted(names), "form": form, "got": r})
@@ -179,6 +190,24 @@ class C12(Prop):
                         acc.violation("round-trip", f"mask {mask} -> set -> {h}", {"mask": mask})
                 except Exception as exc:
                     acc.violation("encode-raised", f"re-encode of decoded mask {mask} raised {type(exc).__name__}", {"mask": mask})
+            # a caller that edits what it was handed must not change what the next caller gets
+            for mask in range(2, 255, 2):
+                acc.ev()
+                acc.distinct()
+                want = {n for n, b in BITS.items() if mask & b}
+                try:
+                    first = self.tools.bit_summary_to_days(mask)
+                    if isinstance(first, set):
+                        first.clear()
+                        first.add(self.Days.SUNDAY if mask != 0x80 else self.Days.MONDAY)
+                    again = self.tools.bit_summary_to_days(mask)
+                    self.dec_rec.drain()
+                    if {m.name for m in again} != want:
+                        acc.violation("decode-aliases-earlier-result", f"mask {mask}: after the previous result was edited by its caller, decode returns "
+                                      f"{sorted(m.name for m in again)}, want {sorted(want)}", {"mask": mask})
+                except Exception as exc:
+                    acc.violation("decode-raised", f"mask {mask} raised {type(exc).__name__} on the second decode", {"mask": mask})
+            acc.count("aliasing_probes", 127)
             acc.sample({"kind": "mask", "mask": 0x54, "observed": sorted(m.name for m in self.tools.bit_summary_to_days(0x54))})
         elif kind == "sequences":
             for n in (1, 2, 3):
